@@ -94,7 +94,8 @@ func strCapitalizeFunc(_ *ctx.EvalCtx, receiver object.Object, _ ...object.Objec
 		return &object.Str{Value: ""}, nil
 	}
 
-	newVal := strings.ToUpper(val[:1]) + val[1:]
+	_, firstSize := utf8.DecodeRuneInString(val)
+	newVal := strings.ToUpper(val[:firstSize]) + val[firstSize:]
 
 	return &object.Str{Value: newVal}, nil
 }
